@@ -195,3 +195,19 @@ Definition send_command_code : list dstmt :=
 (* driver/network/sendconfig.go Driver.SendConfig *)
 Definition send_config_code : list dstmt :=
   [DAssign "configLines" "strings.Split(config, ""\n"")"; DCall "d.SendConfigs(configLines, opts...)"; DIf (DNot (DEq "err" "nil")) [DReturn "nil, err"] []; DAssign "r" "response.NewResponse( config, d.Transport.GetHost(), d.Transport.GetPort(), m.Responses[0].FailedWhenContains, )"; DAssign "rOutputs" "make([]string, len(m.Responses))"; DRange "resp" "m.Responses" [DAssign "i" "index of resp"; DAssign "rOutputs[i]" "resp.Result"]; DAssign "r.StartTime" "m.StartTime"; DAssign "r.EndTime" "time.Now()"; DAssign "r.ElapsedTime" "r.EndTime.Sub(r.StartTime).Seconds()"; DAssign "r.Result" "strings.Join(rOutputs, ""\n"")"; DAssign "r.Failed" "m.Failed"; DReturn "r, nil"].
+(* util/queue.go (C20) *)
+Definition queue_code : list (string * list dstmt) := [
+  ("NewQueue",
+   [DAssign "depthChan" "make(chan int, 1)"; DCall "depthChan <- 0"; DReturn "&Queue{ depthChan: depthChan, lock: &sync.RWMutex{}, }"]);
+  ("Queue.Requeue",
+   [DCall "q.lock.Lock()"; DCall "defer q.lock.Unlock()"; DAssign "n" "[][]byte{b}"; DAssign "q.queue" "append(n, q.queue...)"; DCall "q.depth++"; DCall "<-q.depthChan"; DCall "q.depthChan <- q.depth"]);
+  ("Queue.Enqueue",
+   [DCall "q.lock.Lock()"; DCall "defer q.lock.Unlock()"; DAssign "q.queue" "append(q.queue, b)"; DCall "q.depth++"; DCall "<-q.depthChan"; DCall "q.depthChan <- q.depth"]);
+  ("Queue.Dequeue",
+   [DIf (DEq "q.getDepth()" "0") [DReturn "nil"] []; DCall "q.lock.Lock()"; DCall "defer q.lock.Unlock()"; DAssign "b" "q.queue[0]"; DAssign "q.queue" "q.queue[1:]"; DCall "q.depth--"; DCall "<-q.depthChan"; DCall "q.depthChan <- q.depth"; DReturn "b"]);
+  ("Queue.DequeueAll",
+   [DIf (DEq "q.getDepth()" "0") [DReturn "nil"] []; DCall "q.lock.Lock()"; DCall "defer q.lock.Unlock()"; DAssign "b" "q.queue"; DAssign "q.queue" "nil"; DAssign "q.depth" "0"; DCall "<-q.depthChan"; DCall "q.depthChan <- q.depth"; DReturn "bytes.Join(b, []byte{})"]);
+  ("Queue.getDepth",
+   [DAssign "d" "<-q.depthChan"; DCall "q.depthChan <- d"; DReturn "d"]);
+  ("Queue.GetDepth",
+   [DCall "q.lock.RLock()"; DCall "defer q.lock.RUnlock()"; DReturn "q.depth"])].
